@@ -50,6 +50,9 @@ fn required(plan: &Plan) -> Vec<String> {
     for d in plan.reg.iter().filter(|d| d.flags.structural) {
         if d.flags.reserve_items {
             v.push(format!("presized:reserve_items:{}", d.label));
+            for w in 0..d.flags.reserve_forms {
+                v.push(format!("presized:reserve_items-form:{}:{w}", d.label));
+            }
         }
         v.push(format!("presized:reserve_regions:{}", d.label));
         v.push(format!("presized:merge_regions:{}", d.label));
@@ -142,8 +145,10 @@ fn presized<E: Entry>(ctx: &mut Ctx) {
                 ctx.end_history();
                 return;
             }
-            ctx.log(format!("r.reserve_items({n} items)"));
-            if let Err(p) = panics::catch(|| E::reserve_items(&mut target, &items)) {
+            let which = (h as usize / 6) % E::reserve_form_count().max(1);
+            ctx.log(format!("r.reserve_items[form {which}]({n} items)"));
+            ctx.cover(&format!("presized:reserve_items-form:{}:{which}", E::label()));
+            if let Err(p) = panics::catch(|| E::reserve_items_form(&mut target, &items, which)) {
                 ctx.fail_panic("reserve_items", &p);
                 ctx.end_history();
                 return;
